@@ -622,7 +622,7 @@ def frame_fit(fx, v):
         raise AnalysisBroken('assemble_op::on_read: no re-read after the Remaining Length is known was found')
 
 
-def recovery_after_internal_disconnect(fx, v):
+def recovery_after_internal_disconnect(fx, v, prop='C19'):
     """a malformed packet makes the reader issue an internal (non-terminal) DISCONNECT and then read on.  If that
     DISCONNECT cannot be written because the connection was already replaced (try_again), the disconnect operation must
     still complete WITHOUT error: read_message_op / sentry_op stop for good on any error from it (the client would never
@@ -647,7 +647,7 @@ def recovery_after_internal_disconnect(fx, v):
             ok = end[0] == 'complete' and comp and ec_arg_class(p, p.arg(comp[0], 0))[0] == 'success'
             v.check(ok, 'R-CGRAPH', '%s:path%d:internal-disconnect-after-reconnect' % (describe(f), pi),
                     'an internal DISCONNECT that met a reconnect completes without error, so the reader that issued it keeps reading',
-                    key='C19:R-CGRAPH:disconnect_op:internal-disconnect-recovers', where=f.file)
+                    key=prop + ':R-CGRAPH:disconnect_op:internal-disconnect-recovers', where=f.file)
     # ... and the readers do stop on an error from it (that is why the above matters): recorded, not required
     if n == 0 and not v.violations:
         raise AnalysisBroken('disconnect_op::on_disconnect: non-terminal try_again edge not found')
